@@ -49,10 +49,10 @@ CHECKS = {
     "C14": ("Structure-aware mutations of valid datagrams (length prefixes of every magnitude, integer edge texts, nesting to 1500 levels, truncation, type swaps, fields inflated to the datagram limit, ...) decoded in supervised worker processes on a 2 MiB stack under a counting allocator; datagram sequences injected into a live node followed by liveness checks; plus a libFuzzer decode target.",
             "Allocation bound 256 KiB single / 8 MiB total per input; opt-level 2 build with debug assertions; worker death attributed to the input in flight.",
             "structure-aware fuzzing / property-based testing (proptest mutators, supervised workers) + libFuzzer"),
-    "C15": ("Generated builder configurations (routers/nodes overlap, up to 40 contacts, silent/error/garbage contacts), outage patterns up to 2 h incl. flapping, and bootstrapped() callers at generated times; resolution-time bounds and API liveness under virtual time.",
+    "C15": ("Generated builder configurations (routers/nodes overlap, up to 40 contacts, silent/error/garbage/unsendable contacts, busy event loop), outage patterns up to 2 h incl. flapping, and bootstrapped() callers at generated times; resolution-time bounds and API liveness under virtual time.",
             "Routers are literal ip:port strings; 'about 11 minutes' = 660 virtual seconds.",
             "property-based testing (proptest) of configurations x fault schedules with virtual-time oracles"),
-    "C16": ("Networks of real nodes with a stored peer; a fresh node issues searches at generated times relative to its bootstrap; metamorphic comparison with a twin node's search issued right after bootstrapped().",
+    "C16": ("Networks of real nodes with a stored peer, and scripted worlds in which the contacts leading to the peers answer late in the bootstrap; a fresh node issues searches at generated times relative to its bootstrap (also under a busy event loop, initial outages); metamorphic comparison with a twin node's search issued right after bootstrapped().",
             "Twin node on the same simulated network provides the reference result.",
             "property-based testing (proptest) with a metamorphic oracle"),
     "C17": ("One real node with 0..500 stored peers (v4/v6), 0..180 table nodes of both families (incl. large single-family tables), queries of every kind/want/tid length; every datagram the node emits is measured on the simulated wire.",
